@@ -125,3 +125,14 @@ impl<'a> SessionData<'a> {
         packet_id
     }
 }
+
+#[cfg(feature = "verif")]
+impl SessionData<'_> {
+    pub(super) fn verif_peek_packet_id(&self) -> u16 {
+        self.packet_id.get()
+    }
+
+    pub(super) fn verif_set_packet_id(&mut self, packet_id: NonZeroU16) {
+        self.packet_id = packet_id;
+    }
+}
